@@ -352,8 +352,11 @@ def main():
                 except Exception as e:
                     violations.append(("parse", f"cannot parse result of case {idx}: {e}", {"raw": r[:2000]}))
                     break
+                proj = sub.get("proj")
                 if cmp_fn:
                     d = cmp_fn(impl_obs, model_obs)
+                elif proj:
+                    d = coqterm.first_diff(proj(impl_obs), proj(model_obs))
                 else:
                     d = coqterm.first_diff(impl_obs, model_obs)
                 rec = {"property": pid, "sub": sub["name"], "seed": seed, "tier": tier, "case_index": idx, "input": c["input"], "impl_obs": c["obs"], "model_obs": r, "tags": c["tags"]}
